@@ -221,7 +221,8 @@ theorem lints_silent_iff (g : Cfg) :
       -- 5 everything is reachable; functions are entered by calls only
       (∀ cn ∈ g.nodes.toList,
         (cn.node.isFunctionEntry = true → ∀ p ∈ cn.prevs, cn.funcs = [] ∨
-          ((g.get p).node.isProgramEntry = false ∧ (g.get p).node.isUnconditionalJump = false)) ∧
+          ((g.get p).node.isProgramEntry = false ∧
+            ((g.get p).node.isUnconditionalJump = false ∨ ∀ f ∈ cn.funcs, f ∈ (g.get p).funcs))) ∧
         (cn.node.isFunctionEntry = false → cn.node.isProgramEntry = false → cn.prevs ≠ [])) ∧
       -- 6 nothing is read that the program / function was not given
       (∀ i, i < g.nodes.size → garbageAt g i = []) ∧
